@@ -2,6 +2,7 @@ package main
 
 import (
 	"bytes"
+	"encoding/json"
 	"fmt"
 	"math/rand"
 	"os"
@@ -30,6 +31,7 @@ import (
 
 func stormChild(seedStr, base string) int {
 	seed, _ := strconv.ParseInt(seedStr, 10, 64)
+	worldExtra = 40
 	w, err := newWorld(base, seed)
 	if err != nil {
 		fmt.Println("STORM-INCONCLUSIVE world:", err)
@@ -147,6 +149,73 @@ func stormChild(seedStr, base string) int {
 			}
 		}(i)
 	}
+	// impatient controllers: a verified controller asks for the whole attribute database and leaves (RST / FIN) while the
+	// answer is being written
+	var impatient, reads, badReads int64
+	var firstBad atomic.Value
+	for i := 0; i < 2; i++ {
+		wg.Add(1)
+		go func(i int) {
+			defer wg.Done()
+			rnd := rand.New(rand.NewSource(seed*43 + int64(i)))
+			for atomic.LoadInt32(&stop) == 0 {
+				cs, err := w.reach("verified", nil, rnd)
+				if cs == nil {
+					continue
+				}
+				if err == nil {
+					cs.c.Send(refctl.BuildRequest("GET", "/accessories", "", nil))
+					if rnd.Intn(3) == 0 {
+						time.Sleep(time.Duration(rnd.Intn(400)) * time.Microsecond)
+					}
+					atomic.AddInt64(&impatient, 1)
+				}
+				if rnd.Intn(2) == 0 {
+					cs.c.CloseGraceful()
+				} else {
+					cs.c.Close()
+				}
+			}
+		}(i)
+	}
+	// patient controllers: they read the attribute database and the values again and again and check every answer
+	for i := 0; i < 2; i++ {
+		wg.Add(1)
+		go func(i int) {
+			defer wg.Done()
+			rnd := rand.New(rand.NewSource(seed*47 + int64(i)))
+			cs, err := w.reach("verified", nil, rnd)
+			if err != nil {
+				note("reader %d: pair-verify: %v", i, err)
+				return
+			}
+			defer cs.c.Close()
+			cs.c.Timeout = 60 * time.Second
+			for k := 0; atomic.LoadInt32(&stop) == 0; k++ {
+				m, err := cs.c.Do("GET", "/accessories", "", nil)
+				if err != nil {
+					note("reader %d: GET /accessories: %v", i, err)
+					return
+				}
+				atomic.AddInt64(&reads, 1)
+				if v := w.checkAccessories(m, "storm"); v != nil {
+					atomic.AddInt64(&badReads, 1)
+					firstBad.CompareAndSwap(nil, v.Sig+" :: "+v.What+" :: body starts "+head(m.Body, 160))
+				}
+				m, err = cs.c.Do("GET", fmt.Sprintf("/characteristics?id=%d.%d,%d.%d", sw.AID, sw.IID, br.AID, br.IID), "", nil)
+				if err != nil {
+					note("reader %d: GET /characteristics: %v", i, err)
+					return
+				}
+				atomic.AddInt64(&reads, 1)
+				var cl refctl.CharList
+				if m.Status != 200 || json.Unmarshal(m.Body, &cl) != nil || len(cl.Characteristics) != 2 {
+					atomic.AddInt64(&badReads, 1)
+					firstBad.CompareAndSwap(nil, fmt.Sprintf("GET /characteristics answered %d with a body that is not the two requested entries: %s", m.Status, head(m.Body, 160)))
+				}
+			}
+		}(i)
+	}
 	wg.Add(1)
 	go func() {
 		defer wg.Done()
@@ -180,7 +249,11 @@ func stormChild(seedStr, base string) int {
 		fmt.Printf("STORM-UNHEALTHY %s :: %s\n", v.Sig, v.What)
 		return 1
 	}
-	fmt.Printf("STORM-OK health=%s writes=%d churn=%d hostile_connections=%d notes=%d\n", state, writes, churns, hostile, problems)
+	if b := atomic.LoadInt64(&badReads); b > 0 {
+		fmt.Printf("STORM-BADRESPONSE %d of %d answers to a verified controller that kept reading were not well-formed: %v\n", b, reads, firstBad.Load())
+		return 1
+	}
+	fmt.Printf("STORM-OK health=%s writes=%d churn=%d hostile_connections=%d notes=%d impatient=%d reads=%d\n", state, writes, churns, hostile, problems, impatient, reads)
 	w.a.Stop()
 	return 0
 }
@@ -212,12 +285,18 @@ func storms(r *vf.Run, bin, runDir string) {
 		case strings.Contains(text, "STORM-UNHEALTHY"):
 			l := text[strings.Index(text, "STORM-UNHEALTHY"):]
 			r.Violation("storm:unable-to-serve-afterwards", "after the storm a correct pair-verify and GET /accessories on a new connection fail: "+firstLineOf(l), map[string]interface{}{"storm": i, "output_tail": lastN(strings.Split(text, "\n"), 40)})
+		case strings.Contains(text, "STORM-BADRESPONSE"):
+			l := text[strings.Index(text, "STORM-BADRESPONSE"):]
+			r.Violation("storm:malformed-answer-to-another-controller", "while other peers connected, left in the middle of answers and sent hostile messages, a verified controller that only read got answers that are not well-formed: "+firstLineOf(l),
+				map[string]interface{}{"storm": i, "output_tail": lastN(strings.Split(text, "\n"), 40)})
 		case strings.Contains(text, "STORM-OK"):
 			r.Count("storms_survived", 1)
 			l := text[strings.Index(text, "STORM-OK"):]
 			var h string
-			var w, c, hs, notes int
-			fmt.Sscanf(firstLineOf(l), "STORM-OK health=%s writes=%d churn=%d hostile_connections=%d notes=%d", &h, &w, &c, &hs, &notes)
+			var w, c, hs, notes, imp, rds int
+			fmt.Sscanf(firstLineOf(l), "STORM-OK health=%s writes=%d churn=%d hostile_connections=%d notes=%d impatient=%d reads=%d", &h, &w, &c, &hs, &notes, &imp, &rds)
+			r.Count("storm_controllers_that_left_during_the_answer", imp)
+			r.Count("storm_answers_checked_on_reading_controllers", rds)
 			r.Count("storm_writes_notified", w)
 			r.Count("storm_connections_churned", c)
 			r.Count("storm_hostile_connections", hs)
@@ -230,6 +309,7 @@ func storms(r *vf.Run, bin, runDir string) {
 	}
 	r.Floor("storms_survived+violations", int(r.Counter("storms_survived"))+r.ViolationCount(), n)
 	r.Floor("storm_writes_notified", int(r.Counter("storm_writes_notified"))+1000*r.ViolationCount(), n*500)
+	r.Floor("storm_controllers_that_left_during_the_answer", int(r.Counter("storm_controllers_that_left_during_the_answer"))+1000*r.ViolationCount(), n*20)
+	r.Floor("storm_answers_checked_on_reading_controllers", int(r.Counter("storm_answers_checked_on_reading_controllers"))+1000*r.ViolationCount(), n*20)
 	r.Floor("storm_connections_churned", int(r.Counter("storm_connections_churned"))+1000*r.ViolationCount(), n*100)
 }
-
